@@ -257,7 +257,14 @@ pub fn gen_history(r: &mut StdRng, scn: usize) -> Vec<Op> {
         let padded = scn % 3 == 2 && chance(r, 1, 3);
         Op::Delete((0..k).map(|_| if padded { " g".to_string() } else { pick(r, ids).to_string() }).collect())
       }
-      49..=66 => Op::Commit,
+      49..=66 => {
+        // every third commit is issued by a fresh process: what was queued before must still be
+        // committed by it
+        if chance(r, 1, 3) {
+          ops.push(Op::Restart);
+        }
+        Op::Commit
+      }
       67..=70 => Op::Compact,
       71..=74 => Op::Restart,
       _ => {
